@@ -24,6 +24,7 @@ Inductive cres :=
 
 Record cev := { ce_thread : nat; ce_idx : nat; ce_chan : nat; ce_op : cop; ce_res : cres }.
 Record wfr := { wf_chan : nat; wf_name : oname; wf_str : bytes; wf_num : Z }.
+(* wf_num: reply code of a close, announced size of a header, LENGTH of a body frame *)
 Record cobs := {
   co_events : list cev;
   co_wire : list wfr;                 (* what the broker received after the set-up, in order *)
@@ -139,9 +140,8 @@ Fixpoint wire_chan_ok (fuel : nat) (l : list wfr) : bool :=
                if need =? 0 then wire_chan_ok fuel' l2
                else match l2 with
                     | b :: r3 => oname_eqb (wf_name b) WBody &&
-                                 (0 <? Z.of_nat (length (wf_str b))) &&
-                                 (Z.of_nat (length (wf_str b)) <=? need) &&
-                                 body fuel2' (need - Z.of_nat (length (wf_str b))) r3
+                                 (0 <? wf_num b) && (wf_num b <=? need) &&
+                                 body fuel2' (need - wf_num b) r3
                     | [] => false
                     end
              end) (S (length r2)) (wf_num h) r2
